@@ -29,9 +29,9 @@
      leaf_ok   = what does not come back as written:
                    - a float32 signalling NaN comes back quiet (CVTSS2SD);
                    - under DecodeOptions.SignedInteger (read by DecodeNaked only) an
-                     unsigned value >= 2^63 comes back from DecodeNaked as a NEGATIVE int64
-                     (known finding F07-1n): excluded, the byte-level statement goes
-                     through DecodeNaked's item;
+                     unsigned value >= 2^63 makes DecodeNaked report an overflow (since the
+                     F07-1n repair): excluded, the byte-level statement goes through
+                     DecodeNaked's item ([sint_ok] of the wire lemma follows from it);
                    - a time whose seconds do not fit int64 (time.Time.Unix() cannot
                      return one). *)
 From Coq Require Import List NArith ZArith Bool Lia.
@@ -260,6 +260,19 @@ Section W.
     - apply andb_true_iff in Hb. destruct Hb as [H1 H2]. apply N.ltb_lt in H1.
       apply andb_true_iff in H2. destruct H2 as [H2 H3]. apply Z.leb_le in H2. apply Z.ltb_lt in H3. split; [exact H1|lia].
   Qed.
+
+  (* the SignedInteger guard of Wmsgpack_dec_enc follows from the leaves *)
+  Lemma leaves_sint : forall i, leaves_ok W_msgpack i = true -> MR.sint_ok D i.
+  Proof.
+    induction i using item_ind'; intro Hl; cbn [MR.sint_ok leaves_ok] in *; try exact I.
+    - cbn [leaf_ok W_msgpack m_leaf_ok] in Hl. unfold MR.uint_fits. intro Hs. rewrite Hs in Hl.
+      cbn [negb orb] in Hl. apply N.ltb_lt in Hl. exact Hl.
+    - induction H as [|x r Hx _ IH]; [exact I|].
+      cbn [forallb] in Hl. apply andb_true_iff in Hl. destruct Hl as [H1 H2]. split; [apply Hx; exact H1|apply IH; exact H2].
+    - induction H as [|kv r [Hk Hv] _ IH]; [exact I|].
+      cbn [forallb] in Hl. apply andb_true_iff in Hl. destruct Hl as [H1 H2]. apply andb_true_iff in H1. destruct H1 as [H1 H3].
+      split; [apply Hk; exact H1|]. split; [apply Hv; exact H3|apply IH; exact H2].
+  Qed.
 End W.
 
 (* ---- the composed round trip: bytes -> DecodeNaked's item -> typed value ---- *)
@@ -278,6 +291,7 @@ Proof.
   intros Of D O pi t v rest Hpi Hwt Hs HD Hsup Hl Hd Hlen. split.
   - apply MR.dec_enc.
     + apply supportedb_ok. exact Hsup.
+    + apply (leaves_sint Of D). exact Hl.
     + unfold M.maxdepth. rewrite HD. exact Hd.
     + exact Hlen.
   - apply (roundtrip_losses exact_losses (W_msgpack Of D) O pi t v (W_msgpack_ok Of D) (W_msgpack_losses Of D) Hpi Hwt Hs Hl Hd).
